@@ -9,5 +9,7 @@ git -C /repo worktree add -q --detach "$wt" HEAD || exit 9
 ( cd "$wt" && git apply "$patch" ) || { echo "patch does not apply"; git -C /repo worktree remove --force "$wt"; exit 9; }
 cd /verif && VERIF_REPO="$wt" timeout 3000 ./check "$pid" --tier "$tier"; rc=$?
 git -C /repo worktree remove --force "$wt"
+# the scratch path had its own Kani build directory (engine/kani.py target_dir): remove it
+rm -rf /verif/.cache/kani-target-*
 echo "rc=$rc"
 exit $rc
